@@ -189,7 +189,11 @@ def ops_for(st, bd, level):
     if not cheap and nt >= 2:
         S = (0,)
         tname = mo.tagname('s', S)
-        ops.append((f"restrict('{tname}')", lambda m: m.restrict(tname, return_mapping=True),
+        def named_restrict(m):
+            if m.subdomains is None or tname not in m.subdomains or len(m.subdomains[tname]) == 0:
+                raise _EmptySelection()       # an empty mesh cannot exist: restricting to an empty tag is not a legal input
+            return m.restrict(tname, return_mapping=True)
+        ops.append((f"restrict('{tname}')", named_restrict,
                     lambda m0, res, bad, out: ops[0][2](m0, res, bad, out) if False else
                     _j_restrict_named(m0, res, bad, out, kind, tname)))
 
@@ -495,6 +499,10 @@ def snapshot(m):
     return (m.p.tobytes(), m.t.tobytes(), repr(mo.tag_sets(m.subdomains)), repr(mo.tag_sets(m.boundaries)))
 
 
+class _EmptySelection(Exception):
+    pass
+
+
 def run_op(st, m0, lab, thunk, judge, out, nontrivial_key):
     out.ev()
     out.transitions += 1
@@ -510,6 +518,9 @@ def run_op(st, m0, lab, thunk, judge, out, nontrivial_key):
     snap = snapshot(m0)
     try:
         res = thunk(m0)
+    except _EmptySelection:
+        out.count('empty_selection_not_a_legal_input')
+        return None
     except NotImplementedError:
         out.count('not_implemented:' + lab.split('(')[0])
         return None
